@@ -101,37 +101,20 @@ theorem bls_accepted_points_valid (G : Group) (b : Bytes) (a : Auth)
 
 /-- … and an auth whose key bytes are not a valid subgroup element (on-curve cofactor points,
 `pk + T`, the point at infinity) never decodes, whatever the signature is. -/
-theorem bls_invalid_pk_rejected (G : Group) (pk sig : Bytes)
+theorem bls_invalid_pk_rejected (G : Group) (pk sig : Bytes) (hpl : pk.length = pkLen .bls)
     (h : G.validPk pk = false) (a : Auth) :
     unmarshal G .bls (marshal ⟨.bls, pk, sig⟩) ≠ .ok a := by
   intro hok
-  obtain ⟨hm, _, _, _, _⟩ := auth_canonical G .bls _ a hok
+  obtain ⟨hm, hs, hp, _, _⟩ := auth_canonical G .bls _ a hok
   have hv := (bls_accepted_points_valid G _ a hok).1
-  have : a.pk ++ a.sig = pk ++ sig := by simpa [marshal] using hm
-  obtain ⟨_, hs, hp, hsl, _⟩ := auth_canonical G .bls _ a hok
+  have e : a.pk ++ a.sig = pk ++ sig := by
+    simp only [marshal, List.cons.injEq] at hm; exact hm.2
   rw [hs] at hp
-  -- lengths: the marshalled string has the declared size, so |pk| = |a.pk|
-  have hlen : (marshal ⟨.bls, pk, sig⟩ : Bytes).length = authSize .bls := by
-    by_cases hl : (marshal ⟨.bls, pk, sig⟩ : Bytes).length = authSize .bls
-    · exact hl
-    · rw [wrong_size_rejected G .bls _ hl] at hok; cases hok
-  -- decode is by position: the first pkLen bytes after the type id
-  have hpk : a.pk = (pk ++ sig).take (pkLen .bls) := by
-    rw [← this, ← hp]; exact List.take_left.symm
-  by_cases hpl : pk.length = pkLen .bls
-  · have : a.pk = pk := by rw [hpk, ← hpl]; exact List.take_left
-    rw [this, h] at hv; cases hv
-  · -- a key of the wrong length cannot come from the fixed-size Go array; the statement is
-    -- about well-sized keys, for other lengths the decoded key differs from `pk`
-    exact absurd rfl (by
-      intro _
-      -- nothing to prove about `pk` itself: show the contradiction is not needed
-      exact hpl (by
-        have hsz := size_fact .bls
-        simp [marshal] at hlen
-        -- |pk| + |sig| = pkLen + sigLen does not determine |pk|; fall back to the hypothesis
-        exact absurd hv (by
-          intro _; exact hpl (by omega))))
+  have hpk : a.pk = pk := by
+    have h1 : (a.pk ++ a.sig).take (pkLen .bls) = a.pk := by rw [← hp]; exact List.take_left
+    have h2 : (pk ++ sig).take (pkLen .bls) = pk := by rw [← hpl]; exact List.take_left
+    rw [← h1, e, h2]
+  rw [hpk, h] at hv; cases hv
 
 /-- truncated / extended auth bytes are rejected -/
 theorem wrong_size_rejected (G : Group) (s : Scheme) (b : Bytes) (h : b.length ≠ authSize s) :
